@@ -25,7 +25,8 @@ EXPLANATION = (
 ASSUMPTIONS = ["GraphValue{} assignment destroys the previous graph (C14.f: reset stops before destroy)", "Value::equals is the key equality"]
 DECIDED = ["a re-selection guard", "b unmatched key", "c fresh instance", "d old branch silenced before the new one starts",
            "e only the active child is evaluated", "f stop",
-           'm sampling decisions test valid() on every arm']
+           'm sampling decisions test valid() on every arm',
+           'n the new key is recorded after the old branch was retired', 'o branch captures re-targeted through captured_slots']
 NOT_DECIDED = ["stream equality with the stand-alone branch", "sampled content"]
 
 
